@@ -265,3 +265,26 @@ Proof. reflexivity. Qed.
 (* the float bit patterns: entry_pb yields 32-bit patterns for every score of magnitude below 2^24 / 64 *)
 Theorem C03_f32_of_units_range : forall z, - 2 ^ 24 < z < 2 ^ 24 -> 0 <= f32_of_units z < 2 ^ 32.
 Proof. exact f32_of_units_range. Qed.
+
+(* ---- the probing model in memory (C03/ProbingImage.v; bytes tied to `probing` binary files) ---------------------------------------
+   A table built by inserting entries with distinct non-zero keys, fewer than the bucket count, exists (no ProbingSizeException, every
+   probe loop terminates) and Find returns exactly the value inserted under a key, or absence ... *)
+From Kenlm Require Import C20.ProbingModel C03.ProbingImage C03.ProbingImageProofs.
+Theorem C03_probing_table_is_map : forall n ents, (0 < n)%nat ->
+  (forall kv, In kv ents -> fst kv <> 0) -> NoDup (map fst ents) -> (length ents < n)%nat ->
+  exists t, table_of n ents = Ok t /\
+            forall k, k <> 0 -> find n (ideal_of DivMod n) (next_of DivMod n) t k = Ok (ProbingProofs.alookup ents k).
+Proof. exact probing_table_is_map. Qed.
+
+(* ... so the table of order j laid out from the model's probing table answers the lookup of an n-gram by its 64-bit hash
+   (CombineWordHash chain, modelled with its wrap-around) with the model's entry, for every n-gram whose hash is not shared by a
+   DIFFERENT n-gram of that order: the hash-injectivity assumption of C01-C04 appears here as an explicit, per-query hypothesis. *)
+Theorem C03_probing_order_table_is_table : forall (val : entry -> Z) (t : atable) (j buckets : nat),
+  let l := order_entries t j in
+  let ents := map (fun ke => (hash_key (fst ke), val (snd ke))) l in
+  (0 < buckets)%nat -> (length l < buckets)%nat ->
+  (forall ke, In ke l -> hash_key (fst ke) <> 0) -> NoDup (map (fun ke => hash_key (fst ke)) l) ->
+  exists tb, table_of buckets ents = Ok tb /\
+    forall k, hash_key k <> 0 -> (forall ke, In ke l -> hash_key (fst ke) = hash_key k -> fst ke = k) ->
+      find buckets (ideal_of DivMod buckets) (next_of DivMod buckets) tb (hash_key k) = Ok (option_map val (Defs.alookup l k)).
+Proof. exact probing_order_table_is_table. Qed.
